@@ -294,7 +294,8 @@ def recreates(case):
             continue
         if o["op"] == "add_column":
             d = o["col"].get("default")
-            if (d is not None and not d.startswith("'")) or o["col"].get("computed") or o.get("fk") or o["col"].get("unique"):
+            if (d is not None and not d.startswith("'")) or o["col"].get("computed") or o.get("fk") or \
+                    (o["col"].get("unique") and not o["col"].get("index")):      # unique+index makes a UNIQUE index, not a constraint
                 return True
             continue
         return True
